@@ -6,9 +6,12 @@ Local Open Scope N_scope.
 
 (* what the theorems assume about the third-party block cipher: decryption inverts encryption on
    16-byte blocks under the same key, and blocks stay 16 bytes long *)
-Definition aes_ok (P : prims) : Prop :=
-  forall k b, length b = 16%nat ->
+Definition aes_key_ok (P : prims) (k : bytes) : Prop :=
+  forall b, length b = 16%nat ->
     p_aes_dec P k (p_aes_enc P k b) = b /\ length (p_aes_enc P k b) = 16%nat.
+(* ... for AES-128 and AES-256 keys *)
+Definition aes_ok (P : prims) : Prop :=
+  forall k, (length k = 16 \/ length k = 32)%nat -> aes_key_ok P k.
 
 Lemma fit_length n l : length (fit n l) = n.
 Proof.
@@ -23,7 +26,7 @@ Proof.
 Qed.
 
 Lemma aes_cbc_rt P key iv pt :
-  aes_ok P -> length iv = 16%nat -> aes_cbc_decrypt P key (aes_cbc_encrypt P key iv pt) = Ok pt.
+  aes_key_ok P key -> length iv = 16%nat -> aes_cbc_decrypt P key (aes_cbc_encrypt P key iv pt) = Ok pt.
 Proof.
   intros HP Hiv. unfold aes_cbc_decrypt, aes_cbc_encrypt.
   assert (He : forall b, length b = 16%nat -> length (p_aes_enc P key b) = 16%nat) by (intros b Hb; apply HP; exact Hb).
@@ -51,12 +54,12 @@ Proof.
   - inversion H; subst. reflexivity.
   - unfold rc4r in *. destruct (rc4 key pt) as [c|] eqn:E; cbn [rbind] in H; [|discriminate].
     inversion H; subst. rewrite (rc4_involutive _ _ _ E). reflexivity.
-  - destruct (negb (Nat.eqb (length key) 16)); [discriminate|].
+  - destruct (Nat.eqb_spec (length key) 16) as [Hk|Hk]; cbn [negb] in *; [|discriminate].
     destruct (take_iv ivs) as [iv r] eqn:Et. inversion H; subst.
-    apply aes_cbc_rt; [exact HP|]. pose proof (take_iv_length ivs) as L. rewrite Et in L. exact L.
-  - destruct (negb (Nat.eqb (length key) 32)); [discriminate|].
+    apply aes_cbc_rt; [apply HP; left; exact Hk|]. pose proof (take_iv_length ivs) as L. rewrite Et in L. exact L.
+  - destruct (Nat.eqb_spec (length key) 32) as [Hk|Hk]; cbn [negb] in *; [|discriminate].
     destruct (take_iv ivs) as [iv r] eqn:Et. inversion H; subst.
-    apply aes_cbc_rt; [exact HP|]. pose proof (take_iv_length ivs) as L. rewrite Et in L. exact L.
+    apply aes_cbc_rt; [apply HP; right; exact Hk|]. pose proof (take_iv_length ivs) as L. rewrite Et in L. exact L.
 Qed.
 
 (* an AES ciphertext (IV + padded blocks) is at least 17 bytes longer than the plaintext: never equal to it *)
@@ -64,22 +67,22 @@ Theorem aes_ciphertext_longer P f key pt ivs ct ivs' :
   aes_ok P -> is_aes f = true -> cf_encrypt P f key pt ivs = Ok (ct, ivs') ->
   (length pt + 17 <= length ct)%nat /\ Nat.modulo (length ct) 16 = 0%nat.
 Proof.
-  intros HP Hf H.
-  assert (G : forall iv, length iv = 16%nat ->
+  intros HP0 Hf H.
+  assert (G : forall iv, aes_key_ok P key -> length iv = 16%nat ->
               (length pt + 17 <= length (aes_cbc_encrypt P key iv pt))%nat /\
               Nat.modulo (length (aes_cbc_encrypt P key iv pt)) 16 = 0%nat).
-  { intros iv Hiv. unfold aes_cbc_encrypt.
+  { intros iv HP Hiv. unfold aes_cbc_encrypt.
     assert (He : forall b, length b = 16%nat -> length (p_aes_enc P key b) = 16%nat) by (intros b Hb; apply HP; exact Hb).
     destruct (cbc_encrypt_padded_length (p_aes_enc P key) He iv pt Hiv) as [q [Lq B]].
     rewrite app_length, Lq, Hiv. split; [lia|].
     replace (16 + 16 * S q)%nat with ((S (S q)) * 16)%nat by lia. apply Nat.mod_mul. lia. }
   destruct f; try discriminate; cbn [cf_encrypt] in H.
-  - destruct (negb (Nat.eqb (length key) 16)); [discriminate|].
+  - destruct (Nat.eqb_spec (length key) 16) as [Hk|Hk]; cbn [negb] in *; [|discriminate].
     destruct (take_iv ivs) as [iv r] eqn:Et. inversion H; subst.
-    apply G. pose proof (take_iv_length ivs) as L. rewrite Et in L. exact L.
-  - destruct (negb (Nat.eqb (length key) 32)); [discriminate|].
+    apply G; [apply HP0; left; exact Hk|]. pose proof (take_iv_length ivs) as L. rewrite Et in L. exact L.
+  - destruct (Nat.eqb_spec (length key) 32) as [Hk|Hk]; cbn [negb] in *; [|discriminate].
     destruct (take_iv ivs) as [iv r] eqn:Et. inversion H; subst.
-    apply G. pose proof (take_iv_length ivs) as L. rewrite Et in L. exact L.
+    apply G; [apply HP0; right; exact Hk|]. pose proof (take_iv_length ivs) as L. rewrite Et in L. exact L.
 Qed.
 
 (* RC4: the ciphertext is the plaintext xor the key stream, so it equals the plaintext exactly when the
